@@ -308,6 +308,7 @@ CONSTANTS
   Policy <- cPol
   Events <- cEvents
   NSteps = {g['nsteps']}
+  SpanSteps = {g.get('span', g['nsteps'])}
   Dt = {g['dt']}
   OutDt = {g.get('out_dt', g['out_every'] * g['dt'])}
   WithEstimation = {B(g['estimation'])}
